@@ -45,3 +45,60 @@ fn k_c05_sse2_encode_dna_18() {
         (Err(_), None) => panic!("rejected a valid string"),
     }
 }
+
+/// C06 (bounded): `Encode::encode_raw` (unsafe `Vec::set_len` on an uninitialised buffer) through the generic pipeline and through
+/// the dispatcher, all 6-byte strings: the vector handed back has exactly the input's length, is fully written on success, and
+/// every access stays inside its allocation.
+#[kani::proof]
+#[kani::unwind(40)]
+#[kani::stub(std::arch::x86_64::_mm256_blendv_epi8, m256_blendv_epi8)]
+#[kani::stub(std::arch::x86_64::_mm256_testz_si256, m256_testz_si256)]
+fn k_c06_encode_raw_6() {
+    use lightmotif::pli::{Encode, Pipeline};
+    const N: usize = 6;
+    let seq: [u8; N] = kani::any();
+    let first = spec_first_invalid(&seq, b"ACTGN");
+    let r = Pipeline::<Dna, _>::generic().encode_raw(&seq[..]);
+    match (r, first) {
+        (Ok(v), None) => { assert!(v.len() == N); let i: usize = kani::any(); kani::assume(i < N); assert!(v[i].as_ascii() == seq[i]); }
+        (Err(e), Some(p)) => assert!(e.0 == seq[p] as char),
+        (Ok(_), Some(_)) => panic!("accepted an invalid byte"),
+        (Err(_), None) => panic!("rejected a valid string"),
+    }
+}
+
+/// SHORT inputs (less than one vector): the SIMD encoders must fall back to byte-wise work without touching anything past
+/// the `N`-byte source and destination (all 5-byte strings through SSE2, all 7-byte strings through AVX2).
+#[kani::proof]
+#[kani::unwind(20)]
+fn k_c05_sse2_encode_dna_5() {
+    const N: usize = 5;
+    let seq: [u8; N] = kani::any();
+    let mut dst = [Nucleotide::N; N];
+    let r = Sse2::encode_into::<Dna>(&seq, &mut dst);
+    let first = spec_first_invalid(&seq, b"ACTGN");
+    match (r, first) {
+        (Ok(()), None) => { let i: usize = kani::any(); kani::assume(i < N); assert!(dst[i].as_ascii() == seq[i]); }
+        (Err(e), Some(p)) => assert!(e.0 == seq[p] as char),
+        (Ok(()), Some(_)) => panic!("accepted an invalid byte"),
+        (Err(_), None) => panic!("rejected a valid string"),
+    }
+}
+
+#[kani::proof]
+#[kani::unwind(36)]
+#[kani::stub(std::arch::x86_64::_mm256_blendv_epi8, m256_blendv_epi8)]
+#[kani::stub(std::arch::x86_64::_mm256_testz_si256, m256_testz_si256)]
+fn k_c05_avx2_encode_dna_7() {
+    const N: usize = 7;
+    let seq: [u8; N] = kani::any();
+    let mut dst = [Nucleotide::N; N];
+    let r = Avx2::encode_into::<Dna>(&seq, &mut dst);
+    let first = spec_first_invalid(&seq, b"ACTGN");
+    match (r, first) {
+        (Ok(()), None) => { let i: usize = kani::any(); kani::assume(i < N); assert!(dst[i].as_ascii() == seq[i]); }
+        (Err(e), Some(p)) => assert!(e.0 == seq[p] as char),
+        (Ok(()), Some(_)) => panic!("accepted an invalid byte"),
+        (Err(_), None) => panic!("rejected a valid string"),
+    }
+}
